@@ -19,6 +19,10 @@
 #include "contracts/tlv_element_serialize.h"
 #endif
 #if defined(H_elparse) || defined(H_convertToNested)
+#ifdef H_convertToNested
+#define EL_BUILD_GHOST
+#define EL_PARSE_ARITH
+#endif
 #include "contracts/tlv_element_parse.h"
 #endif
 #include "tlv_element.c"
@@ -196,5 +200,36 @@ void harness(void) {
 	if (res != KSI_OK) REACH("refused");
 #endif
 	if (res == KSI_OK && g_el_len == 2 && (opt & KSI_TLV_OPT_NO_MOVE)) REACH("two children, no move");
+}
+#endif
+
+#ifdef H_elparse
+void harness(void) {
+	unsigned char *dat = nondet_ptr(); size_t dat_len = nondet_size(); KSI_TlvElement *o = NULL; KSI_TlvElement **out = &o; int res;
+	res = KSI_TlvElement_parse(dat, dat_len, out);
+#ifdef EL_OUT_BY_HARNESS
+	if (res == KSI_OK) free(o);          /* the caller owns the result; nothing else may stay allocated (--memory-leak-check) */
+#endif
+	if (res == KSI_OK) REACH("element parsed");
+	if (res == KSI_INVALID_FORMAT) REACH("refused");
+	if (res == KSI_OUT_OF_MEMORY) REACH("allocation failed");
+	if (res == KSI_OK && dat_len > 70000) REACH("trailing octets are allowed");
+}
+#endif
+
+#ifdef H_convertToNested
+void harness(void) {
+	struct KSI_TlvElement_st el; int res; size_t len = nondet_size(); size_t hdr = nondet_bool() ? 2 : 4;
+	memset(&el, 0, sizeof(el));
+	__CPROVER_assume(len <= EL_MAX_INPUT);
+	el.ptr = malloc(hdr + len); __CPROVER_assume(el.ptr != NULL);
+	el.ftlv.hdr_len = hdr; el.ftlv.dat_len = len; el.ref = 1;
+	g_eb_base = el.ptr + hdr; g_eb_len = len; g_eb_live = 0; g_eb_freed = 0; g_eb_off = 0; g_eb_count = 0; g_eb_rejected = NULL;
+	el.subList = nondet_bool() ? &g_el_list : NULL;
+	res = convertToNested(&el);
+	if (res == KSI_OK && el.subList == &g_eb_list) REACH("payload expanded");
+	if (res == KSI_OK && el.subList == &g_eb_list && g_eb_count > 3) REACH("many children");
+	if (res == KSI_INVALID_FORMAT) REACH("payload does not tile");
+	if (res == KSI_OUT_OF_MEMORY) REACH("allocation failure");
 }
 #endif
